@@ -1,5 +1,7 @@
 package abi
 
+import "math/big"
+
 // Slot is one 32-byte word of an encoding that the decoder reads as an
 // offset, a length or an element count, together with the sub-slice it is
 // interpreted against: the decoder sees input = data[A:], and an offset is
@@ -9,6 +11,7 @@ type Slot struct {
 	A     int    // absolute offset of the enclosing container / value
 	Start int    // what the decoder adds to an offset read from this slot
 	Kind  string // offset | length | count
+	Width int    // count slots: bytes one element occupies in the head (static size, or 32 for an offset word)
 }
 
 // Layout walks a value exactly as Encode lays it out and returns every slot.
@@ -28,7 +31,11 @@ func layoutAt(n *Node, v *Val, abs int, slots *[]Slot) {
 			ns[i] = n.Elem
 		}
 		if n.K == 0 {
-			*slots = append(*slots, Slot{Word: abs / 32, A: abs, Start: 32, Kind: "count"})
+			w := 32
+			if !n.Elem.Dynamic() {
+				w = n.Elem.StaticSize()
+			}
+			*slots = append(*slots, Slot{Word: abs / 32, A: abs, Start: 32, Kind: "count", Width: w})
 			layoutSeq(ns, v.Elems, abs+32, abs, 32, slots)
 		} else {
 			layoutSeq(ns, v.Elems, abs, abs, 0, slots)
@@ -75,6 +82,104 @@ func SlotValues(s Slot, total int) []uint64 {
 		if c >= 0 && !seen[c] {
 			seen[c] = true
 			out = append(out, uint64(c))
+		}
+	}
+	return out
+}
+
+// StaticSize: head size in bytes of a static type.
+func (n *Node) StaticSize() int {
+	switch n.Kind {
+	case 's':
+		return 32
+	case 'a':
+		return n.K * n.Elem.StaticSize()
+	case 't':
+		t := 0
+		for _, f := range n.Fields {
+			t += f.StaticSize()
+		}
+		return t
+	}
+	return 0
+}
+
+// wrapSolutions: values v in [2^58, 2^63) with v*w = r (mod 2^64), a few per (w, r).
+func wrapSolutions(w, r uint64, ks []uint64) []uint64 {
+	if w == 0 {
+		return nil
+	}
+	a := uint(0)
+	for w&1 == 0 {
+		w >>= 1
+		a++
+	}
+	if a >= 6+58 || r&((uint64(1)<<a)-1) != 0 {
+		return nil
+	}
+	bits := 64 - a
+	mod := new(big.Int).Lsh(big.NewInt(1), bits)
+	inv := new(big.Int).ModInverse(new(big.Int).SetUint64(w), mod)
+	v0 := new(big.Int).Mul(new(big.Int).SetUint64(r>>a), inv)
+	v0.Mod(v0, mod)
+	var out []uint64
+	for _, k := range ks {
+		v := new(big.Int).Add(v0, new(big.Int).Mul(new(big.Int).SetUint64(k), mod))
+		if v.BitLen() <= 63 && v.Cmp(new(big.Int).Lsh(big.NewInt(1), 58)) >= 0 {
+			out = append(out, v.Uint64())
+		}
+	}
+	return out
+}
+
+// WrapValues: "multiplicative wrap" values for a slot: a claimed count/length v
+// whose product with an element width wraps modulo 2^64 to something that fits
+// the remaining bytes; plus int / allocation sized values.
+func WrapValues(s Slot, total int) []uint64 {
+	rem := total - s.A - 32
+	if rem < 0 {
+		rem = 0
+	}
+	widths := []uint64{32}
+	rs := []uint64{0, uint64(rem)}
+	ks := []uint64{1}
+	if s.Kind == "count" {
+		widths = []uint64{32, 64, 96}
+		if s.Width > 0 && s.Width != 32 && s.Width != 64 && s.Width != 96 {
+			widths = append(widths, uint64(s.Width))
+		}
+		rs = []uint64{0, 32, uint64(rem), uint64(rem + 1)}
+		if rem >= 32 {
+			rs = append(rs, uint64(rem-32))
+		}
+		ks = []uint64{1, 3, 8, 15, 31}
+	}
+	seen := map[uint64]bool{}
+	var out []uint64
+	add := func(v uint64) {
+		if !seen[v] {
+			seen[v] = true
+			out = append(out, v)
+		}
+	}
+	for _, w := range widths {
+		for _, r := range rs {
+			sols := wrapSolutions(w, r, ks)
+			if len(sols) > 2 && s.Kind == "count" {
+				sols = []uint64{sols[0], sols[len(sols)-1]}
+			}
+			for _, v := range sols {
+				add(v)
+			}
+		}
+	}
+	if s.Kind == "count" {
+		for _, v := range []uint64{1 << 31, 1 << 32, 1<<32 + 1, 1 << 40, 1 << 58, 1 << 59, 1<<59 + 1, 1 << 60, 1 << 61, 1 << 62, 3 << 59} {
+			add(v)
+		}
+	} else {
+		for _, v := range []uint64{1 << 40, 1 << 59} {
+			add(v)
 		}
 	}
 	return out
